@@ -26,7 +26,9 @@ COMPONENTS = {
              "pandas / numpy", "forked worker processes (pickling, inherited state)",
              "real files on tmpfs (BAM, BAI, BED, BED chunk temp files)"],
     "simulated": ["ProcessPoolExecutor scheduling: worker choice, task durations, completion order, "
-                  "parent/worker interleaving, worker death, in-task exceptions (SimPool)",
+                  "parent/worker interleaving, worker death, exceptions around a task (SimPool)",
+                  "failing I/O calls inside a worker task (pysam.bedcov / AlignmentFile raising "
+                  "SamtoolsError, EIO, MemoryError at the armed task)",
                   "time.time() as seen by cnvlib.coverage (SimClock: tick, stall, jumps)",
                   "BED chunk size (tuning knob of parallel.to_chunks)",
                   "ENOSPC/EIO from mkstemp / write while chunking"],
@@ -56,6 +58,29 @@ def warm():
     _state["orig_to_chunks"] = cov.to_chunks
     _state["orig_par_os"] = par.os
     _state["orig_par_tempfile"] = par.tempfile
+    _state["orig_cov_pysam"] = cov.pysam
+    cov.pysam = _PysamProxy(cov.pysam)
+
+
+class _PysamProxy:
+    """`pysam` as seen by cnvlib.coverage: the calls that do I/O inside a worker
+    task are seams for in-task faults (armed per task by SimPool)."""
+
+    def __init__(self, real):
+        self._real = real
+
+    def bedcov(self, *a, **k):
+        from sim.simpool import maybe_inner_fault
+        maybe_inner_fault("pysam.bedcov")
+        return self._real.bedcov(*a, **k)
+
+    def AlignmentFile(self, *a, **k):
+        from sim.simpool import maybe_inner_fault
+        maybe_inner_fault("pysam.AlignmentFile")
+        return self._real.AlignmentFile(*a, **k)
+
+    def __getattr__(self, name):
+        return getattr(self._real, name)
 
 
 class Violation(Exception):
@@ -133,7 +158,8 @@ def run_one(tape, tier, opts):
     ctx.pool_cfg["scramble_workers"] = tape.chance(1, 3, "pool.scramble")
     fault_kind = None
     if population == "fault":
-        fault_kind = tape.choice(["death", "exc", "fs", "death+exc"], "fault.family")
+        fault_kind = tape.choice(["death", "exc", "fs", "inner", "death+exc", "inner+death"],
+                                 "fault.family")
 
     rundir = tempfile.mkdtemp(prefix="c09-", dir=os.environ.get("VERIF_SCRATCH"))
     tempfile.tempdir = rundir
@@ -225,6 +251,48 @@ def run_one(tape, tier, opts):
         msg = _cmp_rows(serial[False], serial[True], ordered=False)
         if msg:
             raise Violation("D2", "C09/D2", f"pileup vs count: {msg}")
+
+        # ---- the command-line path: parse_args -> _cmd_coverage -> .cnn file -------
+        if tape.chance(1, 3, "cov.cli"):
+            import pandas as pd
+            from cnvlib import commands
+
+            an = algo_name(primary_count)
+            outp = os.path.join(rundir, "cli-out", "sample.targetcoverage.cnn")
+            argv = ["coverage", bam, bed_plain if primary_count else bed_pile, "-o", outp,
+                    "-q", str(min_mapq), "-p", str(processes)] + (["-c"] if primary_count else [])
+            try:
+                cargs = commands.parse_args(argv)
+                cargs.func(cargs)
+            except SystemExit as exc:
+                raise Violation("D3", f"C09/D3/{an}/cli", f"cnvkit.py {' '.join(argv[:1] + argv[3:])} exited: {exc}")
+            except C.SimCrash:
+                raise
+            except BaseException as exc:  # noqa: BLE001
+                raise Violation("D3", f"C09/D3/{an}/cli",
+                                f"cnvkit.py coverage -p {processes} {'-c ' if primary_count else ''}raised "
+                                f"{type(exc).__name__}: {D.mask_text(exc)[:300]} (do_coverage succeeds)")
+            df = pd.read_csv(outp, sep="\t", na_filter=False, dtype={"chromosome": str, "gene": str})
+            got = list(zip(df["chromosome"].tolist(), df["start"].tolist(), df["end"].tolist(),
+                           df["gene"].tolist(), df["depth"].astype(float).tolist(),
+                           df["log2"].astype(float).tolist()))
+            want = serial[primary_count]
+            msg = None
+            if len(got) != len(want):
+                msg = f"{len(got)} rows in the .cnn file, expected {len(want)}"
+            else:
+                for i, (g, w) in enumerate(zip(got, want)):
+                    if g[:4] != w[:4]:
+                        msg = f"row {i}: bin {g[:4]} but expected {w[:4]}"
+                        break
+                    if abs(g[4] - w[4]) > 1e-5 * max(1.0, abs(w[4])) or abs(g[5] - w[5]) > 1e-5 * max(1.0, abs(w[5])):
+                        msg = f"row {i} {g[:4]}: depth/log2 {g[4:]} but do_coverage gave {w[4:]}"
+                        break
+            if msg:
+                raise Violation("D3", f"C09/D3/{an}/cli",
+                                f"cnvkit.py coverage -p {processes} chunk={chunk}: written table differs "
+                                f"from the serial do_coverage table: {msg}")
+            ctx.probe("cli.coverage_file_checked")
 
         # ---- parallel runs ----------------------------------------------------
         todo = [primary_count] + ([not primary_count] if both_parallel else [])
@@ -354,8 +422,9 @@ def _arm_faults(ctx, fs, kind, by_count, tape):
     ctx._c09_fault_base = dict(ctx.faults)
     if kind is None:
         return
-    if kind in ("death", "exc", "death+exc"):
+    if kind in ("death", "exc", "death+exc", "inner", "inner+death"):
         ctx.pool_cfg["fault_kinds"] = tuple(kind.split("+"))
+        ctx.pool_cfg["inner_excs"] = ("samtools", "oserror", "memory")
         ctx.pool_cfg["fault_rate"] = (1, 3)
         ctx.pool_cfg["max_faults"] = 1
     elif kind == "fs":
@@ -378,7 +447,7 @@ def _faults_fired(ctx, fs):
     base = getattr(ctx, "_c09_fault_base", {})
     out = []
     for k in sorted(ctx.faults):
-        if k.startswith(("pool.death", "pool.exc", "fs.error", "fs.crash")):
+        if k.startswith(("pool.death", "pool.exc", "pool.inner", "fs.error", "fs.crash")):
             if ctx.faults[k] > base.get(k, 0):
                 out.append(k)
     return out
